@@ -57,10 +57,23 @@ fn main() {
         std::process::exit(2);
     }
     let dir = std::path::PathBuf::from(&args[1]);
+    // optional: --variants a,b  => additional registry entries for modules crate::derive_mods::<v><m>
+    let mut variants: Vec<String> = Vec::new();
+    let mut mods: Vec<String> = Vec::new();
+    let mut i = 2;
+    while i < args.len() {
+        if args[i] == "--variants" && i + 1 < args.len() {
+            variants = args[i + 1].split(',').filter(|s| !s.is_empty()).map(String::from).collect();
+            i += 2;
+        } else {
+            mods.push(args[i].clone());
+            i += 1;
+        }
+    }
     let mut out = String::new();
     let mut reg = String::new();
     let mut total = 0usize;
-    for m in &args[2..] {
+    for m in &mods {
         let path = dir.join(format!("{m}.rs"));
         let src = match std::fs::read_to_string(&path) {
             Ok(s) => s,
@@ -128,6 +141,15 @@ fn main() {
                 writeln!(reg, "        Box::new({s}),").unwrap();
             }
             writeln!(reg, "    ]));").unwrap();
+            for var in &variants {
+                let vpath = format!("crate::derive_mods::{var}{m}::{t}");
+                let sp = spoilers_for(&vpath, fields);
+                writeln!(reg, "    v.push(crate::laws::ops::<{vpath}>(\"{var}{m}\", \"{t}\", vec![").unwrap();
+                for s in sp {
+                    writeln!(reg, "        Box::new({s}),").unwrap();
+                }
+                writeln!(reg, "    ]));").unwrap();
+            }
             total += 1;
         }
     }
@@ -136,5 +158,5 @@ fn main() {
         eprintln!("bufgen: {e}");
         std::process::exit(2);
     }
-    println!("bufgen: {total} Packet types registered from {} modules", args.len() - 2);
+    println!("bufgen: {total} Packet types registered from {} modules", mods.len());
 }
